@@ -95,6 +95,14 @@ pub fn run(args: &Args, rec: &mut Recorder) {
                 rec.eval();
                 rec.nontrivial(&bytes);
                 rec.bump(&format!("enc.{enc}.len%4={}", bytes.len() % 4));
+                if rec.want_sample() && case % 53 == 1 && pad == 1 {
+                    rec.sample(
+                        Json::obj()
+                            .with("encoding", Json::s(enc))
+                            .with("bytes", Json::UInt(bytes.len() as u64))
+                            .with("first_bytes_hex", Json::s(&bytes.iter().take(24).map(|b| format!("{b:02x}")).collect::<String>())),
+                    );
+                }
                 let p = scratch.join("c17.a2l");
                 std::fs::write(&p, &bytes).unwrap();
                 let r = guarded(|| a2lfile::load(&p, None, false));
